@@ -134,6 +134,48 @@ def expect_binary(op, l, r):
         return ("runtime", "")
 
 
+# ---------------------------------------------------------------- chains: several operators in one expression
+SAME_LEVEL = [["+", "-"], ["*", "/", "%"], ["==", "!=", "<", "<=", ">", ">=", "~", "!~"], ["&&", "||"]]
+
+
+def tree_eval(t, vals):
+    """value of an operator tree (int = operand index, (op, l, r) = application), left operand first, && || short-circuit"""
+    if isinstance(t, int):
+        return vals[t]
+    op, lt, rt = t
+    l = tree_eval(lt, vals)
+    if op == "&&":
+        return opref.truthy(l) and opref.truthy(tree_eval(rt, vals))
+    if op == "||":
+        return opref.truthy(l) or opref.truthy(tree_eval(rt, vals))
+    return opref.binop(op, l, tree_eval(rt, vals))
+
+
+def tree_src(t, texts, top=True):
+    """every application in its own parentheses: the tree is given, nothing is left to precedence"""
+    if isinstance(t, int):
+        return texts[t]
+    return "(" + tree_src(t[1], texts, False) + " " + t[0] + " " + tree_src(t[2], texts, False) + ")"
+
+
+def left_chain(ops):
+    t = 0
+    for i, op in enumerate(ops):
+        t = (op, t, i + 1)
+    return t
+
+
+def flat_src(ops, texts):
+    out = texts[0]
+    for op, x in zip(ops, texts[1:]):
+        out += " " + op + " " + x
+    return out
+
+
+def tree_ops(t):
+    return [] if isinstance(t, int) else tree_ops(t[1]) + [t[0]] + tree_ops(t[2])
+
+
 class C05(Check):
     pid = "C05"
     props = ["C05_operators.v"]
@@ -142,7 +184,11 @@ class C05(Check):
             "1e19, 1e300, 5e-324, inf, nan, numeric/non-numeric/empty/blank strings, booleans, null, unset, containers, regexes, "
             "user and native functions) supplied as literals, variables, document fields and as the same cell twice, plus random "
             "doubles by bit pattern; thorough = the full product, quick = every operator x every pair of kinds + the whole numeric "
-            "grid of / and %; non-trivial = an operand is not a small positive integer literal")
+            "grid of / and %; chains of 3-8 operands: a + b + c over every triple of kinds (flat and with the grouping written out), "
+            "longer + chains with the first string at every position, flat chains of one operator and of operators of one "
+            "precedence level for every operator, random fully parenthesised trees of 3-6 operands over all operators, each "
+            "application judged by the table on the values its operands actually have; "
+            "non-trivial = an operand is not a small positive integer literal")
 
     # ------------------------------------------------------------------ generation
     def generate(self, rng, tier):
@@ -211,6 +257,7 @@ class C05(Check):
                 ls = [rng.choice(passable) for _ in range(n)]
                 rs = [rng.choice(passable) for _ in range(n)]
             self.repeated(op, ls, rs, rng.choice(["func", "loop", "records"]))
+        self.chains(rng, thorough, kinds)
         # random doubles by bit pattern
         nrand = 30000 if thorough else 500
         for _ in range(nrand):
@@ -325,6 +372,99 @@ class C05(Check):
         else:
             want = ("ok", fmt_res(opref.truthy(rv)) + " " + fmt_res(rv) + "\n")
         self.add(prog, inp, want, {"op": op + " " + rhs, "l": p[0], "modes": L.mode})
+
+    # ------------------------------------------------------------------ chains
+    def chains(self, rng, thorough, kinds):
+        P = PALETTE
+        modes = ["lit", "var", "fld"]
+
+        def pick(k):
+            return P[rng.choice(kinds[k])]
+        strs = kinds["str"]
+        # a + b + c: every triple of kinds; what the second + does depends on the VALUE the first one produced
+        for ka in KINDS:
+            for kb in KINDS:
+                for kc in KINDS:
+                    for rep in range(4 if thorough else 1):
+                        ps = [pick(ka), pick(kb), pick(kc)]
+                        self.chain(rng, left_chain(["+", "+"]), ps, rng.choice(["flat", "flat", "paren"]), modes)
+                    if thorough or rng.random() < 0.25:
+                        self.chain(rng, ("+", 0, ("+", 1, 2)), [pick(ka), pick(kb), pick(kc)], "paren", modes)
+        # longer + chains: the first string at every position (and none at all), any kinds around it
+        nonstr = [k for k in KINDS if k != "str"]
+        for n in range(3, 9):
+            for first in range(n + 1):
+                for rep in range(12 if thorough else 3):
+                    ps = []
+                    for i in range(n):
+                        if i < first:
+                            ps.append(pick(rng.choice(nonstr)))
+                        elif i == first:
+                            ps.append(P[rng.choice(strs)])
+                        else:
+                            ps.append(pick(rng.choice(KINDS)))
+                    self.chain(rng, left_chain(["+"] * (n - 1)), ps, "flat" if rep != 1 else "paren", modes)
+        # one operator repeated, and operators of one level mixed, written flat (they group from the left)
+        for op in BINOPS:
+            level = [l for l in SAME_LEVEL if op in l][0]
+            for rep in range(200 if thorough else 30):
+                n = rng.randint(3, 6)
+                ops = [op] * (n - 1) if rep % 2 == 0 else [op] + [rng.choice(level) for _ in range(n - 2)]
+                ps = self.chain_operands(rng, left_chain(ops), n, kinds)
+                self.chain(rng, left_chain(ops), ps, "flat", modes)
+        # any operators in any grouping, the grouping written out
+        for rep in range(8000 if thorough else 700):
+            n = rng.randint(3, 6)
+            t = self.rand_tree(rng, 0, n - 1)
+            ps = self.chain_operands(rng, t, n, kinds)
+            self.chain(rng, t, ps, "paren", modes)
+
+    def rand_tree(self, rng, lo, hi):
+        if lo == hi:
+            return lo
+        op = rng.choice(BINOPS)
+        if op in ("~", "!~"):
+            return (op, self.rand_tree(rng, lo, hi - 1), hi)     # the pattern is an operand, never a computed string (see opref.match)
+        k = rng.randint(lo, hi - 1)
+        return (op, self.rand_tree(rng, lo, k), self.rand_tree(rng, k + 1, hi))
+
+    def chain_operands(self, rng, t, n, kinds):
+        """operands for a tree: mostly numbers and strings so that most chains run to the end, every kind now and then;
+        the right operand of ~ is mostly a pattern"""
+        P = PALETTE
+        pattern_at = set()
+
+        def walk(x):
+            if isinstance(x, int):
+                return
+            if x[0] in ("~", "!~") and isinstance(x[2], int):
+                pattern_at.add(x[2])
+            walk(x[1])
+            walk(x[2])
+        walk(t)
+        ps = []
+        for i in range(n):
+            if i in pattern_at and rng.random() < 0.8:
+                ps.append(P[rng.choice(kinds["regex"] + [IDX["'a'"], IDX["'^b$'"], IDX["'0'"], IDX["''"], IDX["'('"], IDX["'1e3'"]])])
+            else:
+                k = rng.random()
+                kind = "num" if k < 0.35 else "str" if k < 0.6 else rng.choice(KINDS)
+                ps.append(P[rng.choice(kinds[kind])])
+        return ps
+
+    def chain(self, rng, t, ps, style, modes):
+        operands = [Operand(p, rng.choice(modes), "o%d" % i) for i, p in enumerate(ps)]
+        ops = tree_ops(t)
+        if style == "flat":
+            prog, inp = build(lambda *texts: "print (%s)" % flat_src(ops, texts), operands)
+        else:
+            prog, inp = build(lambda *texts: "print %s" % tree_src(t, texts), operands)
+        try:
+            want = ("ok", fmt_res(tree_eval(t, [p[1] for p in ps])) + "\n")
+        except RuntimeErr:
+            want = ("runtime", "")
+        self.add(prog, inp, want, {"op": "chain " + " ".join(ops) + " (" + style + ")", "l": " ".join(p[0] for p in ps),
+                                   "r": "", "modes": ",".join(o.mode for o in operands)}, ("chain",))
 
     # ------------------------------------------------------------------ oracle
     def oracle(self, case, impl):
